@@ -207,8 +207,11 @@ def number_args(rng, n):
 
 def top_count(rng):
     k = rng.randrange(100)
-    if k < 85:
+    if k < 78:
         return [b"%d" % rng.choice([0, 0, 1, 1, 2, 3, 4, 5, 8, 100, 1000, 2 ** 31 - 1])]
+    if k < 85:
+        # counts that only fit an unsigned long: every one of them means "more lines than any message has"
+        return [b"%d" % rng.choice([2 ** 31, 2 ** 32 - 1, 2 ** 32, 2 ** 32 + 1, 2 ** 32 + 2, 2 ** 33 + 3, 2 ** 63 - 1, 2 ** 63, 2 ** 64 - 2, 2 ** 64 - 1])]
     if k < 90:
         return [b"0" * rng.randint(1, 5) + b"%d" % rng.choice([0, 1, 2])]
     if k < 96:
@@ -998,7 +1001,7 @@ def main(tier):
         "unique id of a message = maildir file name up to the first ':' (maildir(5))",
         "message order is taken from the first UIDL listing (ties in mtime unspecified); mtime order is only counted",
         "STAT's message count and LAST's value are not compared; 'digits followed by junk', surplus arguments and TOP "
-        "counts above 2^31-1 are outside the domain and not generated",
+        "counts of 2^64 and more are outside the domain and not generated",
         "replies to commands naming a file removed behind the server's back are compared for shape and effect only"])
 
 
